@@ -234,6 +234,9 @@ func (x *Exec) afterCall(s *State, fr *Frame, call *ast.CallExpr, text string, s
 			cnd := isNil
 			if d.Ret == "err" {
 				cnd = Not(isNil)
+			} else if re, ok := c.RetExpr[d]; ok {
+				sv := x.specExpr(s, fr, re.Expr).(*Scalar).T
+				cnd = And(Not(isNil), Or(Eq(errT, sv), Eq(x.errRoot(errT), x.errRoot(sv))))
 			}
 			cur := x.readVar(s, gv.Var)
 			x.setVar(s, fr, gv.Var, x.mergeValue(cnd, nv, cur))
@@ -520,11 +523,28 @@ func (x *Exec) havocCall(s *State, fr *Frame, fn *types.Func, sig *types.Signatu
 	name := fullName(fn)
 	if pureExternal(fn) || x.spec > 0 {
 		x.note("abstracted", name+" (result unknown, no effect on tracked state)")
+	} else if x.syntacticallyPure(fn) {
+		x.note("abstracted", name+" (no contract; writes no memory syntactically: result unknown, memory unchanged)")
 	} else {
 		x.note("abstracted", name+" (result unknown, all memory forgotten)")
 		x.havocAllMem(s, "call to "+name)
 	}
 	return x.resultOf(s, sig, sanitize(fn.Name()))
+}
+
+// syntacticallyPure reports whether a module function without a contract writes
+// no memory at all (by the same syntactic over-approximation used for loops).
+func (x *Exec) syntacticallyPure(fn *types.Func) bool {
+	d, ok := x.w.Decls[fn]
+	if !ok || d.Decl.Body == nil || d.Pkg.TypesInfo == nil {
+		return false
+	}
+	if fn.Pkg() == nil || !strings.HasPrefix(fn.Pkg().Path(), repoModule) {
+		return false
+	}
+	ws := &writeSet{vars: map[types.Object]bool{}, mems: map[string]bool{}}
+	x.scanWrites(d.Pkg.TypesInfo, d.Decl.Body, ws, map[*types.Func]bool{fn: true}, 0)
+	return !ws.all && len(ws.mems) == 0
 }
 
 func (x *Exec) inlinable(fn *types.Func) bool {
